@@ -97,7 +97,19 @@ func run(c *harness.C, k cell, r world.Chooser) *out {
 		}
 		if ok && k.Op == "keygen+sign" {
 			for _, n := range k.Signers {
-				w.Parties[n].Mpc.SetStoredData(o.kg[n].Data)
+				data := []byte(nil)
+				if o.kg[n] != nil {
+					data = o.kg[n].Data
+				} else {
+					// a replica that did not take part in the key generation holds the share of
+					// its party (copied from the replica that did)
+					for _, m := range k.Part {
+						if k.Map[m] == k.Map[n] {
+							data = o.kg[m].Data
+						}
+					}
+				}
+				w.Parties[n].Mpc.SetStoredData(data)
 			}
 			for _, n := range k.Signers {
 				scen.StartSign(w, w.Parties[n], rs, fmt.Sprint("sg", n), []byte("digest-c06"), "topic-c06", 6*time.Second)
@@ -338,6 +350,15 @@ func gen(c *harness.C) []harness.Case {
 	// node 1 and node 2 are replicas of party 21
 	rep := map[uint16]uint16{1: 21, 2: 21, 3: 22, 4: 23}
 	add("replicas4", rep, [][]uint16{{1, 3, 4}, {2, 3, 4}, {1, 2, 3}}, first2)
+	// the duplicated party is the lowest / the middle / the highest of the selected ones, in key
+	// generation and in signing; and a session of two replicas of one single party
+	add("dup-low", map[uint16]uint16{1: 21, 2: 21, 3: 22, 4: 23}, [][]uint16{{1, 2, 3}, {1, 2, 4}}, all)
+	add("dup-mid", map[uint16]uint16{1: 21, 2: 22, 3: 22, 4: 23}, [][]uint16{{1, 2, 3, 4}, {2, 3, 4}}, all)
+	add("dup-high", map[uint16]uint16{1: 21, 2: 22, 3: 23, 4: 23}, [][]uint16{{1, 3, 4}, {2, 3, 4}, {1, 2, 3, 4}}, all)
+	add("dup-high-boundary", map[uint16]uint16{1: 2, 2: 3, 3: 65535, 4: 65535}, [][]uint16{{1, 2, 3, 4}}, all)
+	add("dup-only", map[uint16]uint16{1: 7, 2: 7, 3: 8}, [][]uint16{{1, 2}}, all)
+	// duplicate only among the signers (the key generation is fine)
+	add("dup-signers-high", map[uint16]uint16{1: 21, 2: 22, 3: 23, 4: 23}, [][]uint16{{1, 2, 3}}, func(p []uint16) []uint16 { return []uint16{2, 3, 4} })
 	// replicas whose party id collides with another node id
 	rep2 := map[uint16]uint16{1: 3, 2: 3, 3: 1, 4: 2}
 	add("replicas4x", rep2, [][]uint16{{1, 3, 4}, {2, 3, 4}}, last2)
